@@ -468,8 +468,50 @@ def hs_ctx(header, ctx):
     raise core.Infra("unknown context " + ctx)
 
 
+B64 = b"AbC9+/dEf0Gh"
+
+
+def long_values(shape, L):
+    """The structured values of one shape for target length L: list of values, each a list of (bytes, repeat)."""
+    def rep(unit, pre=b"", suf=b""):
+        return [[(pre, 1), (unit, max(0, (L - len(pre) - len(suf)) // len(unit))), (suf, 1)]]
+    if shape == "b64":
+        out = []
+        for pad in (0, 1, 2):
+            for bad in ("none", "start", "mid", "end"):
+                body = max(0, L - pad)
+                txt = (B64 * (body // len(B64) + 1))[:body]
+                if bad != "none" and body > 0:
+                    i = {"start": 0, "mid": body // 2, "end": body - 1}[bad]
+                    txt = txt[:i] + b"!" + txt[i + 1:]
+                out.append([(txt, 1), (b"=", pad)])
+        return out
+    table = {
+        "tokens": (b"a,", b"", b"a"), "commas": (b",", b"", b""), "longtoken": (b"a", b"", b""), "quotes": (b'"', b"", b""),
+        "bslashes": (b"\\", b"", b""), "openquote": (b"a", b'x; p="', b""), "openquote_esc": (b'\\"', b'x; p="', b""),
+        "quoted": (b"a", b'x; p="', b'"'), "params": (b"; p=1", b"permessage-deflate", b""),
+        "qparams": (b'; p="q"', b"permessage-deflate", b""), "exts": (b"permessage-deflate; client_max_window_bits, ", b"", b"x"),
+        "spaces": (b" ", b"", b""), "obs": (b"\x80", b"", b""), "semis": (b";", b"", b""), "eqs": (b"=", b"", b""),
+        "digits": (b"1", b"", b""),
+        "urlhost": (b"a", b"http://", b".test"), "urlport": (b"9", b"http://example.test:", b""),
+        "urlv6": (b":", b"http://[", b"]"), "urlpct": (b"%41", b"http://example.test/", b""),
+        "urlbadpct": (b"%zz", b"http://", b""), "urluser": (b"u", b"http://", b":p@example.test"),
+    }
+    if shape not in table:
+        raise core.Infra("unknown long-value shape " + shape)
+    unit, pre, suf = table[shape]
+    return rep(unit, pre, suf)
+
+
 def hs_concretise(p, pid, rnd):
     pre, suf = hs_ctx(p["header"], p["ctx"])
+    if p.get("kind") == "long":
+        vals = []
+        for L in p["lens"]:
+            for v in long_values(p["shape"], L):
+                vals.append([dict(hex=hx(b), n=n) for b, n in v if n > 0 and b])
+        return dict(id=pid, side=p["side"], header=p["header"], pre=hx(pre), suf=hx(suf), stem=[], ext=0,
+                    reps=[[hx(r) for r in HS_REPS[c]] for c in HS_CLASSES], seed=rnd.randrange(1, 1 << 30), abs=p, vals=vals)
     return dict(id=pid, side=p["side"], header=p["header"], pre=hx(pre), suf=hx(suf), stem=list(p["stem"]), ext=p["ext"],
                 reps=[[hx(r) for r in HS_REPS[c]] for c in HS_CLASSES], seed=rnd.randrange(1, 1 << 30), abs=p)
 
